@@ -129,6 +129,8 @@ pub(crate) fn remove_or_compress_too_old_logfiles_impl(
             .cloned()
             .collect();
         for file in unfinished {
+            #[cfg(flexi_logger_verif)]
+            crate::verif_hooks::point("fs:remove", Some(&file))?;
             std::fs::remove_file(&file)?;
             files.retain(|f| *f != file);
         }
